@@ -198,7 +198,11 @@ func sameAdj(a, b *adjacency) string {
 		return fmt.Sprintf("%d vertices, then %d", a.n, b.n)
 	}
 	for v := 0; v < a.n; v++ {
-		if fmt.Sprint(a.nb[v]) != fmt.Sprint(b.nb[v]) {
+		same := len(a.nb[v]) == len(b.nb[v])
+		for i := 0; same && i < len(a.nb[v]); i++ {
+			same = a.nb[v][i] == b.nb[v][i]
+		}
+		if !same {
 			return fmt.Sprintf("vertex %d has neighbours %v, after the cycle %v", v, a.nb[v], b.nb[v])
 		}
 	}
@@ -721,7 +725,9 @@ func run(c *engine.Ctx) {
 						full := strings.Repeat(string([]byte{fill}), need)
 						m.judge(g6, hs+full, org+fmt.Sprintf(" + exactly %d data bytes %q", need, fill))
 						m.judge(g6, hs+full[:need-1], org+fmt.Sprintf(" + one data byte too few (%q)", fill))
-						m.judge(g6, hs+full+"?", org+fmt.Sprintf(" + one data byte too many (%q)", fill))
+						if n <= 300 || fill == '?' {
+							m.judge(g6, hs+full+"?", org+fmt.Sprintf(" + one data byte too many (%q)", fill))
+						}
 					}
 					if n <= 1000 {
 						seeded := 6
